@@ -557,7 +557,23 @@ func c18(r *Report, s *Sem) {
 		if !ok {
 			continue
 		}
-		if _, isMap := pt.Elem().Underlying().(*types.Map); !isMap {
+		hasMap := false
+		elemT := pt.Elem()
+		if pp, isPtr := elemT.Underlying().(*types.Pointer); isPtr {
+			elemT = pp.Elem() // var table = &tableType{…}
+		}
+		switch et := elemT.Underlying().(type) {
+		case *types.Map:
+			hasMap = true
+		case *types.Struct:
+			// a table type grouping the map with its mutex
+			for i := 0; i < et.NumFields(); i++ {
+				if _, isMap := et.Field(i).Type().Underlying().(*types.Map); isMap {
+					hasMap = true
+				}
+			}
+		}
+		if !hasMap {
 			continue
 		}
 		type acc struct {
